@@ -1771,7 +1771,9 @@ Section BuiltTypes.
                    if String.eqb k out_name then Some TRegisterBankOutput
                    else if String.eqb k in_name then Some TRegisterBankInput else lookup (t_types t) k).
       { rewrite !lookup_upd. reflexivity. }
-      destruct (eval f (lookup consts) dflt) as [v|es]; cbn [r_t fst snd t_types t_errs]; unfold tconst;
+      destruct (check f _ (lookup consts) dflt) as [wc|esc];
+        [destruct (eval f (lookup consts) dflt) as [v|es]|];
+        cbn [r_t fst snd t_types t_errs]; unfold tconst;
         rewrite Hl; (split; [intros H|intros _ Hk]);
         destruct (String.eqb k out_name) eqn:Eo; try discriminate H;
         destruct (String.eqb k in_name) eqn:Ei; try discriminate H; try exact H; try reflexivity;
